@@ -68,10 +68,14 @@ func (sdp *SizeDataPacker) PackDataInChunks(data [][]byte, limit int) ([][]byte,
 				}
 
 				isMarshaledBuffTooLarge = len(marshaledElements) >= limit
-				if isMarshaledBuffTooLarge {
-					returningBuff = append(returningBuff, marshaledElements)
-					elements = make([][]byte, 0)
+				if !isMarshaledBuffTooLarge {
+					// the element stays in the open batch, so its marshaled form is what a later overflow has to flush
+					lastMarshalized = marshaledElements
+					continue
 				}
+
+				returningBuff = append(returningBuff, marshaledElements)
+				elements = make([][]byte, 0)
 			}
 
 			lastMarshalized = make([]byte, 0)
